@@ -50,6 +50,7 @@ TReserve  == Is("reserve")  /\ Reserve(Ev.t, Ev.o)
 TInsFail  == Is("insfail")  /\ InsFail(Ev.t, Ev.o)
 TWrite    == Is("w")        /\ Write(Ev.t, Ev.n, Ev.k, Ev.o, Ev.v)
 TDelete   == Is("del")      /\ Delete(Ev.t, Ev.o) /\ txn[Ev.t].setup /\ Ev.o \in txn[Ev.t].sel
+TDeleteAll == Is("delall")  /\ DeleteAll(Ev.t)
 \* DeleteAt refuses exactly the offsets that are not in the transaction's selection
 TDelMiss  == Is("delmiss")  /\ UNCHANGED vars /\ txn[Ev.t].pc = "body" /\ txn[Ev.t].setup /\ Ev.o \notin txn[Ev.t].sel
 \* ---- filters, iteration, aggregates
@@ -214,7 +215,7 @@ Diag == IF Ev.e = "dump" THEN DumpDiag ELSE IF Ev.e = "apply" THEN ApplyDiag ELS
 
 TNext == \/ TReset \/ TDrop \/ TRes \/ TLogEnd \/ TCreateCol \/ TCreateIdx \/ TDropIdx \/ TCreateSort \/ TCreateTrig \/ TDropTrig \/ TTransport
          \/ TBulkIns \/ TBulkDel \/ TBulkReplay
-         \/ TBegin \/ TSel \/ TReserve \/ TInsFail \/ TWrite \/ TDelete \/ TFilter \/ TCount \/ TRange \/ TAgg \/ TDelMiss \/ TKDelete \/ TKeyCheck \/ TKeyEnd \/ TRollback \/ TCommitStart
+         \/ TBegin \/ TSel \/ TReserve \/ TInsFail \/ TWrite \/ TDelete \/ TDeleteAll \/ TFilter \/ TCount \/ TRange \/ TAgg \/ TDelMiss \/ TKDelete \/ TKeyCheck \/ TKeyEnd \/ TRollback \/ TCommitStart
          \/ TApply \/ TAfter \/ TSnap \/ TRestore \/ TReplay \/ TRead \/ TDump
 TSpec == TInit /\ [][TNext]_tvars
 
